@@ -41,7 +41,13 @@ fn gen_ledger(rng: &mut Rng) -> Option<Ledger> {
         if g.stopped {
             return None;
         }
-        g.push_txn(true);
+        // one transaction in six states a rate through an implied exchange next to a posting with
+        // an explicit cost in another pair
+        if g.rng.chance(1, 6) {
+            g.push_implied_exchange();
+        } else {
+            g.push_txn(true);
+        }
     }
     if g.stopped {
         return None;
@@ -62,6 +68,17 @@ fn ledger_events(ledger: &Ledger) -> Vec<Event> {
                 Price::Total(t) => (a.value().abs(), t.num.q()),
             };
             out.push(Event { date: t.date, source: Source::Ledger, x, qty_x: qx, y: pr.amt().commodity.clone(), qty_y: qy });
+        }
+        // the implied exchange of an IMPLIEDnQ transaction: posting 2 (`a Y`) against what posting 3
+        // pays beyond the cost of posting 1 (`b Z`)
+        if t.payee.starts_with("IMPLIED") && t.posts.len() == 3 {
+            if let (Some(p1), Some(Price::Rate(r)), Some(p2), Some(p3)) = (t.posts[0].amount.as_ref(), t.posts[0].cost.as_ref(), t.posts[1].amount.as_ref(), t.posts[2].amount.as_ref()) {
+                if let Some(cost) = p1.value().mul(r.num.q()) {
+                    if let Some(b) = p3.value().neg().sub(cost) {
+                        out.push(Event { date: t.date, source: Source::Ledger, x: p2.commodity().to_string(), qty_x: p2.value(), y: p3.commodity().to_string(), qty_y: b });
+                    }
+                }
+            }
         }
     }
     out
